@@ -341,10 +341,15 @@ func (c *Ctx) spawnedAfterWrites(root string, writes []fieldAccess, g *callGraph
 	}
 	for _, gs := range goSites {
 		for _, w := range writes {
-			if w.Fn != gs.Caller {
+			// the `go` may sit in a helper split off the function that holds the writes: lift it to that function
+			site := liftTo(gs.Instr, w.Fn)
+			if site == nil {
 				return false
 			}
-			if c.reachableFrom(gs.Instr, w.In) {
+			if site != gs.Instr && isGoSite(ownerSite[gs.Instr.Parent()]) {
+				return false
+			}
+			if c.reachableFrom(site, w.In) {
 				return false
 			}
 		}
